@@ -56,6 +56,10 @@ pub fn run(ctx: &Ctx, rep: &mut Report) {
     for uni in ctx.my_universes(total) {
         let mut rng = ctx.rng_for(uni);
         rep.begin_universe(uni);
+        if uni == 0 {
+            // once per run: the history recorded under the pinned version, continued by the current code
+            crate::legacy::run(rep, "C18");
+        }
         let hub_addr = b"axelar1hub".to_vec();
         let mut w = ItsWorld::new(&mut rng, b"stellar", &hub_addr, 3);
         w.trust(b"Ethereum-Sepolia");
